@@ -194,7 +194,7 @@ def compare_gaf(al1, al2):
     elif al1.BO == -1:
         return 1
     elif al2.BO == -1:
-        return 1
+        return -1
 
     # Comparing BO tags
     if al1.BO < al2.BO:
@@ -205,7 +205,7 @@ def compare_gaf(al1, al2):
     # Comparing NO tags
     if al1.NO < al2.NO:
         return -1
-    if al1.BO > al2.BO:
+    if al1.NO > al2.NO:
         return 1
 
     # Comparing start position in node
